@@ -52,8 +52,9 @@ def V(descs, vals, d, v, cls='ValueDataNode', **extra):
     return Obj(cls, f)
 
 
-def build_tree(variant=0):
-    """Wired nodes + flat descriptors/values of one subset.  `variant` changes values (and the delayed count)."""
+def build_tree(variant=0, q_owner='t2'):
+    """Wired nodes + flat descriptors/values of one subset.  `variant` changes values (and the delayed count); `q_owner` chooses the
+    element the bit-mapped quality value belongs to (same descriptors, other bitmap)."""
     descs, vals = [], []
     k = variant
     nodes = []
@@ -91,11 +92,14 @@ def build_tree(variant=0):
     t2 = V(descs, vals, _elem(12101, 'TEMPERATURE'), 300.0 + k)
     nodes.append(t2)
     q = V(descs, vals, _elem(33007, 'PER CENT CONFIDENCE', 'CODE TABLE'), 70 + k, cls='QualityInfoNode')
-    t2.fields['attributes'] = [q]
+    if q_owner == 't2':
+        t2.fields['attributes'] = [q]
+    else:
+        t1.fields['attributes'].append(q)
     nodes.append(q)
     mk = V(descs, vals, Obj('MarkerDescriptor', {'id': 12101, 'name': 'TEMPERATURE', 'unit': 'K', 'nbits': 12, 'scale': 1, 'refval': 0, 'marker_id': 224255}), 3.5,
            cls='FirstOrderStatsNode')
-    t1.fields['attributes'].append(mk)
+    (t1 if q_owner == 't2' else t2).fields.setdefault('attributes', []).append(mk)
     nodes.append(mk)
     return nodes, descs, vals
 
@@ -106,6 +110,9 @@ PATHS = [
     '/102000.031001', '/012101.A12101', '/012101[0].A12101', '/012101[1].033007', '/012101.033007', '/012101[0].F12101', '/102002/020003',
     '/102002/101002/020004', '/102002/101002/020004[0]', '/102002/101002[0]/020004[1]', '/033007', '/F12101', '/999999', '/340011/999999',
     ' / 340011 / 004001 ', '/102002/020003[0]',
+    # slices whose bounds are non-negative but whose step runs backwards, and bounds beyond the number of matches
+    '/012101[:0:-1]', '/012101[2:0:-1]', '/012101[1:0:-1]', '/012101[:1]', '/012101[0:2]', '/012101[1:2]', '/012101[5:]', '/012101[:9]', '/012101[-2:]', '/012101[:-1]',
+    '/102000/007004[1:0:-1]', '/102000/007004[:0:-1]', '/102000/012101[:1]', '/102002/101002/020004[:0:-1]', '/012101[::-1].A12101', '/012101[:1].A12101',
 ]
 ERROR_PATHS = ['/340011', '/102000', '/001001/004001', '/001001.A01001', '/204004']
 BARE_IDS = ['001001', '004002', '007004', '020004', '020003']
@@ -300,7 +307,7 @@ def rule_r1_full(repo):
     import multiprocessing
     ids = ['001001', '340011', '012101', '102000', '102002', '101002', '004002', '007004', '020003', '020004', '031001', 'A12101', '033007', 'F12101']
     containers = ['340011', '012101', '102000', '102002', '101002']
-    slices = ['', '[0]', '[1]', '[-1]', '[::2]', '[1:]']
+    slices = ['', '[0]', '[1]', '[-1]', '[::2]', '[1:]', '[:1]', '[1:0:-1]', '[:0:-1]']
     paths = []
     for a in ids:
         for sa_ in slices:
@@ -387,6 +394,20 @@ def rule_r3(repo):
             if got != want or list(got) != list(want_idx):
                 rr.fail('DataQuerent.query:subset', fi.where, 'query %r on %s data returns %r; expected %r' % (path, 'compressed' if compressed else 'uncompressed', got, want),
                         witness={'path': path, 'compressed': compressed})
+    # subsets with the same descriptors whose bitmaps designate different owners: every subset is evaluated on its own tree
+    mixed = [build_tree(0), build_tree(1, q_owner='t1'), build_tree(3)]
+    jm = [render_json(repo, *t) for t in mixed]
+    msg = make_message(mixed, False)
+    for path in ('/012101.033007', '/012101[0].033007', '/012101[-1].033007', '@[1]/012101[0].033007', '@[::-1]/012101.033007'):
+        sub, comps = parse_ref(path)
+        idx = list(range(3))[sub] if isinstance(sub, slice) else ([sub] if sub is not None else [0, 1, 2])
+        fi, r = run_query(repo, msg, path)
+        rr.instance('%s on subsets whose quality value has different owners' % path)
+        want = dict((i, ref_query(jm[i], comps)) for i in idx)
+        got = result_values(r) if r.ok else None
+        if got != want:
+            rr.fail('DataQuerent.query:per-subset-tree', fi.where, 'query %r on three uncompressed subsets with equal descriptors but different attribute owners returns %s; '
+                    'evaluating the path over each subset\'s own nested rendering gives %r' % (path, got if r.ok else 'raises ' + r.exc.cls, want), witness={'path': path})
     # zero-count delayed replication: querying a child gives an empty list
     msg = make_message([zero], False)
     for path in ('/102000/007004', '/102000/012101[0]'):
@@ -425,6 +446,13 @@ def run(repo, check):
     from sa.rules import c08
     from sa.rules.common import share
     share(check, repo, c08.rule_r5, 'C16.R5', 'data decoded through a compiled template come from the template compiled for this descriptor list and table version (shared with C08.R5)')
+    from sa.rules import c09 as _c09
+    from sa.rules.common import share as _sh
+    # (the constructs recorded as known findings of C09.R1 - 204YYY in force at a marker / 203 / 206 / class 33 - are findings of C09, not repeated here)
+    from sa.report import load_known
+    known_c09 = set(k['ident'].split(':', 1)[1] for k in load_known().get('known', []) if k.get('ident', '').startswith('C09.R1:'))
+    _sh(check, repo, _c09.rule_r1, 'C16.R6', 'the tree that is queried holds every flat value once: coder / wirer lockstep (shared with C09.R1)', args=('C16.R6',),
+        keep=lambda f: f.key not in known_c09)
     check.assumptions = ['the reference evaluates only / and . steps with slices over the nested JSON rendering (faithfulness of that rendering: C09.R5); the descendant '
                          'separator is covered only through bare IDs of ordinary elements, as the property states',
                          'results on real messages additionally depend on the wiring (C07, C09); the fold uses hand-built wired trees']
